@@ -111,6 +111,10 @@ func main() {
 		dumpWriteGuards(P)
 		return
 	}
+	if *dump == "mustwrite" {
+		dumpMustWrite(P)
+		return
+	}
 	if *dump == "writeredges" {
 		dumpWriterEdges(P)
 		return
